@@ -337,7 +337,7 @@ pub fn run(ctx: &Ctx) {
          SerializeBufferFull otherwise. non-trivial = 0 < c < m or c within 1 of m; distinct = hash(output, framing, capacity, placement)",
     );
     ctx.assume("a stray write outside the buffer faults on the guard page and is reported by the signal handler");
-    let n = ctx.tier.pick(2_500, 60_000);
+    let n = ctx.tier.pick(20_000, 200_000);
     let scfg = ShapeCfg { encoder_only: true, depth: 3, ..ShapeCfg::default() };
     ctx.par_proptest(
         "capacity-sweep",
@@ -357,7 +357,7 @@ pub fn run(ctx: &Ctx) {
         },
         |(s, v), l| check_sweep(s, v, l),
     );
-    let n = ctx.tier.pick(6_000, 150_000);
+    let n = ctx.tier.pick(60_000, 600_000);
     let scfg = ShapeCfg { depth: 2, ..ShapeCfg::default() };
     ctx.par_proptest(
         "heapless-thresholds",
